@@ -88,10 +88,9 @@ PROPOSED_FINDINGS = [
      "witness": {"design": "Outer(addParameter('BASE',1)) -> Mid(addParameter('START', outer.getParameter('BASE'))) -> ShiftLeftConstant(n = mid.getParameter('START'))",
                  "emitted": "before 02b2b6c: assign w_t0 = a << <py4hw.base.Parameter object at 0x7f…>;"},
      "what": "fixed: property=C03 02b2b6c getParameterValue resolved a forwarded parameter by one level only, so a Parameter object's repr reached the text; regression: param stream (levels=2, shift)"},
-    {"id": "C03-transpiler-ternary", "property": "C03", "status": "known", "anchor": "py4hw/transpilation/python2verilog_transpilation.py:552",
-     "class_expr": "r.get('kind')=='parse' and r.get('has_ifexp') and r.get('kw_in_msg')=='if'",
-     "witness": {"design": "self.y = 1 if self.a.get() > 2 else 2", "emitted": "y=if (a>2) begin 1 end else begin 2 end ;"},
-     "what": "a conditional expression on the right-hand side of an assignment is emitted as an `if` statement in expression position: the text is not Verilog"},
+    {"id": "C03-transpiler-ternary", "property": "C03", "status": "fixed", "commit": "760fbc8", "anchor": "py4hw/transpilation/python2verilog_transpilation.py:552",
+     "witness": {"design": "self.y = 1 if self.a.get() > 2 else 2", "emitted": "before 760fbc8: y=if (a>2) begin 1 end else begin 2 end ;"},
+     "what": "fixed: property=C03 760fbc8 a conditional expression on the right-hand side was emitted as an `if` statement in expression position (now `((c) ? a : b)`); regression: behav:TernarySeq"},
 ]
 
 
@@ -302,14 +301,15 @@ class Pipeline:
         self.n_designs += 1
         label = dict(stream=job['kind'], desc=job['desc'])
         try:
-            g, text = emit(job)
+            g, text = (job['g'], job['text']) if 'text' in job else emit(job)
         except Exception as e:
             res.hist('emitter_refusals', f"{job['kind'].split(':')[0]}:{type(e).__name__}")
             res.count(('refused', job['kind'], json.dumps(job['desc'], default=str, sort_keys=True)), hist={'stream': job['kind'].split(':')[0]})
             return None
         objs = emitted_objects(g, job['dut'])
-        ctext = P.strip_attributes(P.canon_ids(text, [o for _, o in objs]))
-        cnames = [(P.canon_ids(n, [o for _, o in objs]), o) for n, o in objs]
+        cobjs = job.get('canon_objs') or [o for _, o in objs]
+        ctext = P.strip_attributes(P.canon_ids(text, cobjs))
+        cnames = [(P.canon_ids(n, cobjs), o) for n, o in objs]
         first = {}
         for n, o in cnames:
             first.setdefault(n, o)
@@ -329,6 +329,13 @@ class Pipeline:
             res.hist('parse', 'error')
             return None
         res.hist('parse', 'ok')
+        if 'must_define' in job:
+            # a returned text answers the request: it defines the module of the requested object (unless the caller listed
+            # it as already created); an empty / partial answer is not a design
+            want = P.canon_ids(job['must_define'], cobjs)
+            if P.module_of(tree, want) is None:
+                fail(res, f'the text returned for the request does not define the requested module {want}',
+                     dict(kind='request', rule='top-missing', module=want, modules=[m[1] for m in tree[1:]], text=ctext[:600], **label))
         rt = P.roundtrip(ctext, tree, pdefs)
         if rt is not None:
             res.disagree('parser-roundtrip', dict(mismatch=rt, text=ctext[:800], **label))
@@ -629,6 +636,113 @@ def stream_aliaslocal(pipe, res, rng, tier):
         pipe.maybe_flush()
 
 
+def headers_of(obj, cobjs, names=None, exclude=()):
+    """declared black boxes: headers (no items) of the modules a FRESH generator emits for obj, restricted to `names`"""
+    import py4hw
+    g = py4hw.VerilogGenerator(obj)
+    with contextlib.redirect_stdout(io.StringIO()):
+        text = g.getVerilogForHierarchy(obj, noInstanceNumberInTopEntity=False)
+    tree = vparse.parse(P.strip_attributes(P.canon_ids(text, cobjs)))
+    mods = [m[:4] + [['items']] for m in tree[1:] if (names is None or m[1] in names) and m[1] not in exclude]
+    return vparse.sexp(['design'] + mods)
+
+
+def stream_sequences(pipe, res, rng, tier):
+    """several requests on ONE VerilogGenerator object: every returned text must be a closed design on its own (modules the
+    caller listed in createdStructures before the call are its declared black boxes)"""
+    import py4hw
+    R = rtl()
+    q = tier == 'quick'
+    seqs = [
+        [('H', 'top', None), ('H', 'top', None)],
+        [('H', 'A', None), ('H', 'B', None), ('H', 'top', None)],
+        [('H', 'top', None), ('H', 'A', None), ('H', 'B', None)],
+        [('V', 'A', None), ('H', 'A', None), ('V', 'B', None), ('H', 'top', None)],
+        [('H', 'A', 'fresh'), ('H', 'B', 'fresh'), ('H', 'A', 'fresh')],
+        [('H', 'A', 'shared'), ('H', 'B', 'shared'), ('H', 'top', None), ('H', 'B', None)],
+        [('H', 'A', 'names'), ('H', 'B', None), ('H', 'A', None)],
+        [('H', 'top', 'shared'), ('H', 'top', 'shared'), ('H', 'top', None)],
+    ]
+    for i in range(2 if q else 40):
+        for si, seq in enumerate(seqs):
+            r = rng.fork((i, si))
+            try:
+                d = CD.seq_design(r, r.choice([2, 8]))
+            except Exception as e:
+                res.hist('constructor_refusals', f'seq:{type(e).__name__}')
+                continue
+            objs = dict(top=d['top'], A=d['A'], B=d['B'])
+            cobjs = CD.all_objects(d['top'])
+            g = py4hw.VerilogGenerator(d['top'])
+            shared = []
+            for k, (op, which, mode) in enumerate(seq):
+                o = objs[which]
+                pre = []
+                try:
+                    with contextlib.redirect_stdout(io.StringIO()):
+                        if op == 'V':
+                            text = g.getVerilog(o)
+                            name = R.getVerilogModuleName(o)
+                        else:
+                            name = R.getVerilogModuleName(o, noInstanceNumber=True)
+                            if mode is None:
+                                text = g.getVerilogForHierarchy(o)
+                            elif mode == 'fresh':
+                                text = g.getVerilogForHierarchy(o, createdStructures=[])
+                            elif mode == 'shared':
+                                pre = list(shared)
+                                text = g.getVerilogForHierarchy(o, createdStructures=shared)
+                            else:
+                                pre = [f"Add{d['desc']['w']}"]
+                                text = g.getVerilogForHierarchy(o, createdStructures=list(pre))
+                except Exception as e:
+                    res.hist('emitter_refusals', f'seq:{type(e).__name__}')
+                    break
+                try:
+                    if op == 'V':
+                        ext = headers_of(o, cobjs, None, exclude=(P.canon_ids(name, cobjs),))   # a single module: its children are declared
+                    else:
+                        ext = headers_of(d['top'], cobjs, set(P.canon_ids(n, cobjs) for n in pre)) if pre else '(design)'
+                except Exception as e:
+                    res.hist('emitter_refusals', f'seq-ext:{type(e).__name__}')
+                    continue
+                job = dict(kind='seq', desc=dict(design=d['desc'], seq=[list(x) for x in seq], step=k, pre=[P.canon_ids(n, cobjs) for n in pre]),
+                           gen_root=d['top'], dut=o, g=g, text=text, ext=ext, canon_objs=cobjs)
+                if name not in pre:
+                    job['must_define'] = name
+                pipe.add(job)
+        pipe.maybe_flush()
+
+
+def stream_kwports(pipe, res, rng, kws, tier):
+    """reserved-word names on input / output / inout ports of NON-inlined children at depth >= 2 (user structural blocks,
+    a primitive providing its own body, a clocked block)"""
+    R = rtl()
+    q = tier == 'quick'
+    sv = sorted(set(re.findall(r"'(\w+)'", inspect.getsource(R.isReservedVerilogKeyword))) - kws)
+    must = ['small', 'large', 'real', 'time', 'bit', 'do', 'final', 'type', 'design', 'uwire', 'wire', 'signed', 'table', 'int', 'x']
+    pool = must + (rng.shuffle(sorted(kws))[:10] + rng.shuffle(sv)[:6] if q else sorted(kws) + sv)
+    pool = list(dict.fromkeys(pool))
+    for i, n in enumerate(pool):
+        other = pool[(i + 1) % len(pool)]
+        third = pool[(i + 2) % len(pool)]
+        for leaf in ('struct', 'body', 'reg'):
+            for pos in ('in', 'out', 'io', 'all'):
+                if q and (i + len(leaf) + len(pos)) % 2 and n not in must[:8]:
+                    continue
+                a = dict(n_in='a', n_out='r', n_io=None)
+                if pos == 'in':
+                    a['n_in'] = n
+                elif pos == 'out':
+                    a['n_out'] = n
+                elif pos == 'io':
+                    a['n_io'] = n
+                else:
+                    a = dict(n_in=n, n_out=other, n_io=third)
+                tryadd(pipe, res, lambda: CD.kwport_design(leaf=leaf, depth=rng.choice([2, 3]), w=rng.choice([1, 4]), **a))
+        pipe.maybe_flush()
+
+
 def stream_reuse(pipe, res, rng, tier):
     ws = [2, 3, 8] if tier == 'quick' else [2, 3, 4, 5, 8, 9, 16, 32, 33]
     for w in ws:
@@ -885,6 +999,8 @@ def main(res, tier, rng, replay):
     pipe.after += [run_corpus(pipe, res), names_oracle(pipe, res, rng, kws, tier)]
     stream_reuse(pipe, res, rng.fork('reuse'), tier)
     stream_aliaslocal(pipe, res, rng.fork('aliaslocal'), tier)
+    stream_sequences(pipe, res, rng.fork('seq'), tier)
+    stream_kwports(pipe, res, rng.fork('kwports'), kws, tier)
     stream_names(pipe, res, rng.fork('names'), kws, tier)
     stream_behav(pipe, res, rng.fork('behav'), tier)
     stream_params(pipe, res, rng.fork('params'), tier)
